@@ -91,7 +91,9 @@ func c19Field(r *core.Rand, typ string, sep string, stats map[string]int) string
 	case "boolean":
 		if r.Chance(1, 8) {
 			stats["boolean_invalid"]++
-			return []string{"yes", "2", "", "tru", "nope"}[r.Intn(5)]
+			// incl. spellings that only a Unicode case folding or width
+			// folding would take for true / false
+			return []string{"yes", "2", "", "tru", "nope", "falſe", "FALſE", "ｔｒｕｅ", "ｆ", "true\u200b", "tr\u00fce", "１"}[r.Intn(12)]
 		}
 		stats["boolean_valid"]++
 		return []string{"1", "true", "t", "0", "false", "f", "TRUE", "False", "T", "F"}[r.Intn(10)]
